@@ -10,10 +10,43 @@ from . import absint as A
 FILES = {}
 
 
+DATASETS = {}
+
+
+class H5Attrs(dict):
+    """attrs of a group / dataset: a dictionary, plus create(name, data, shape=None, dtype=None) which stores the value *converted* to the given type"""
+    pass
+
+
+F8 = ('f8', '<f8', 'float64', 'double', 'float', 'd')
+I8 = ('i8', '<i8', 'int64', 'long', 'int')
+
+
+def _as_dtype(value, dtype):
+    """what a value becomes when stored with an explicit type: itself when the type holds it exactly, a marked conversion otherwise"""
+    if dtype is None:
+        return value
+    if isinstance(dtype, tuple) and dtype and dtype[0] == 'dtype-of':
+        ds = DATASETS.get(dtype[1])
+        if ds is not None and ds.data is not None:
+            return value                    # the type of the written array is the type of the property: its default fits
+        dtype = (ds.opts.get('dtype') if ds is not None else None) or 'f4'      # h5py: a dataset created from a shape alone is single precision
+    if isinstance(dtype, str):
+        if isinstance(value, bool) or isinstance(value, str) or value is None:
+            return ('converted to %s' % dtype, value)
+        if isinstance(value, float) and dtype in F8:
+            return value
+        if isinstance(value, int) and dtype in I8:
+            return value
+        return ('converted to %s' % dtype, value)
+    return ('converted to an unknown type', value)
+
+
 class H5Node(dict):
     def __init__(self, kind, data=None, opts=None):
         dict.__init__(self)
-        self.kind, self.data, self.opts, self.attrs = kind, data, dict(opts or {}), {}
+        self.kind, self.data, self.opts, self.attrs = kind, data, dict(opts or {}), H5Attrs()
+        DATASETS[id(self)] = self
 
     def __hash__(self):
         return id(self)
@@ -84,8 +117,13 @@ def _attr_hook(interp, v, attr, node, env):
             return mk
         if attr == 'create_dataset':
             def mkd(i, args, kwargs, n, e):
-                data = kwargs.get('data', args[1] if len(args) > 1 else None)
+                # h5py: create_dataset(name, shape=None, dtype=None, data=None, **kwds)
+                data = kwargs.get('data', args[3] if len(args) > 3 else None)
                 opts = dict((k, x) for k, x in kwargs.items() if k != 'data')
+                if len(args) > 1:
+                    opts['shape'] = args[1]
+                if len(args) > 2:
+                    opts['dtype'] = args[2]
                 ch = opts.get('chunks')
                 if isinstance(ch, (tuple, list)) and any(c == 0 for c in ch):
                     raise A.Raised('ValueError: h5py: chunk shape must not contain 0 (dataset %r of size %s)' % (args[0], _size_of(data)), n, e.get('__rel__'))
@@ -112,6 +150,23 @@ def _attr_hook(interp, v, attr, node, env):
                 return None
             return rd
         raise A.Unsupported('h5 model: attribute %s' % attr)
+    if isinstance(v, H5Attrs):
+        if attr == 'create':
+            def create(i, args, kwargs, n, e):
+                name = args[0]
+                data = kwargs.get('data', args[1] if len(args) > 1 else None)
+                dtype = kwargs.get('dtype', args[3] if len(args) > 3 else None)
+                v[name] = _as_dtype(data, dtype)
+                return None
+            return create
+        if attr == 'modify':
+            def modify(i, args, kwargs, n, e):
+                if args[0] not in v:
+                    raise A.Raised('KeyError: attrs.modify of a missing attribute %r' % (args[0],), n, e.get('__rel__'))
+                v[args[0]] = args[1]
+                return None
+            return modify
+        return NotImplemented
     if isinstance(v, NdBuf):
         if attr == 'shape':
             return v.shape
